@@ -69,7 +69,7 @@ TEXT = {
                     "checked against the receiver's transaction, both final transactions must have the same txid, be valid, be at a fee both sides offered; "
                     "inside the property's realistic fee box both must finish within 60 closing_signed messages. RBF arm: two RBF-coop state machines "
                     "with re-offers at other fee rates, simultaneous shutdowns, early offers, can't-pay paths - every broadcast is validated and closer/closee "
-                    "transactions of the same round must be identical. Value oracle everywhere: each output = floor(balance) of the simulator's own books "
+                    "transactions of the same round must be identical; one re-offer in three plays a peer implementation that switches its closer_script for that round (allowed by the simple-close spec, never done by lnd itself), the closee must build and sign the same transaction. Value oracle everywhere: each output = floor(balance) of the simulator's own books "
                     "(opener's includes commit fee and anchors) minus the fee for the payer, present iff >= the owner's dust limit, outputs + fee <= capacity "
                     "and = capacity (minus at most 1 sat of msat remainders) when nothing is trimmed."),
         level_note=("Trusted: input.MockSigner with real keys; channels built by chansim (no funding flow); the simulator's ~120-line re-implementation of the protofsm "
